@@ -63,6 +63,10 @@ def generate(rng, tier, index):
         for im in wp["images"]:
             im["lines"] = rng.randint(1, 3)
             im["pixels"] = rng.randint(1, 3)
+        if (wp.get("prefix") or {}).get("trailing") == "block":
+            # media padding up to a 32 kB block would make this a 32 768-cut run (the cause of the
+            # harness wall-limit errors of the thorough tier): short padding here
+            wp["prefix"]["trailing"] = "short"
     else:
         wp = world.gen_world_plan(rng, max_images=3, max_lines=24, huge=0.03)
     prod = synth.build(wp)
